@@ -58,7 +58,9 @@ def cases(draw):
             # the right image has its own footprint (same CRS, another origin) in half of the georeferenced cases
             "georef_right": draw(st.sampled_from([None, [12.5, -3.0], [-40.0, 7.5]])),
             # one case in eight is also run through the console entry point in a separate process
-            "cli": draw(st.integers(0, 7)) == 0}
+            "cli": draw(st.integers(0, 7)) == 0,
+            # the coordinate system is an EPSG code or a projection that has no authority code at all
+            "crs": draw(st.sampled_from(["epsg", "epsg", "local"]))}
 
 
 def read_products(outdir):
@@ -83,9 +85,10 @@ def body(ctx: Ctx, p: dict) -> None:
     has_val = "validation" in names
     a, b = p["disp"]
     with files.scratch_dir("c19") as d:
-        inp_l = {"img": files.write_tiff(os.path.join(d, "left.tif"), left, georef=p["georef"])}
+        crs = files.LOCAL_CRS if p.get("crs") == "local" else "EPSG:32631"
+        inp_l = {"img": files.write_tiff(os.path.join(d, "left.tif"), left, georef=p["georef"], crs=crs)}
         geo_r = tuple(p["georef_right"]) if (p["georef"] and p.get("georef_right")) else p["georef"]
-        inp_r = {"img": files.write_tiff(os.path.join(d, "right.tif"), right, georef=geo_r)}
+        inp_r = {"img": files.write_tiff(os.path.join(d, "right.tif"), right, georef=geo_r, crs=crs)}
         if ml is not None:
             inp_l["mask"] = files.write_tiff(os.path.join(d, "ml.tif"), (ml != 0).astype(np.int16) * np.where(ml == 1, 1, 3).astype(np.int16), dtype="int16")
         if mr is not None:
@@ -240,6 +243,8 @@ def body(ctx: Ctx, p: dict) -> None:
         classes.append("georef")
         if p.get("georef_right") and has_val:
             classes.append("right-image-own-footprint")
+        if p.get("crs") == "local":
+            classes.append("crs-without-epsg-code")
     if any(c.get("invalid_disparity") == "NaN" for _, c in p["pipeline"]):
         classes.append("invalid=NaN")
     if p.get("cli"):
